@@ -490,7 +490,7 @@ def run(res):
     # exhaustive small scope: every ordering of every non-empty subset (<= 3 members) of four atoms, as union
     # and as intersection, bare, inside a generic, and inside an outer union
     eq_hash(env, res, model, exhaustive_pool(env), stats, mism, [hv[0]], decide=False)
-    res.extra["exhaustive"] = "==/hash: all orderings of all subsets (size<=3) of 4 atoms as Union/Intersection, bare, under list[...], and inside an outer union (all ordered pairs)"
+    res.extra["exhaustive_scope"] = "==/hash: all orderings of all subsets (size<=3) of 4 atoms as Union/Intersection, bare, under list[...], and inside an outer union (all ordered pairs)"
   lap("eq/hash pool")
 
   # ---- 4. whole-AST round trips ----
